@@ -250,6 +250,8 @@ impl ColorBytes for Gray8 {
 }
 
 // take a color value that is N bits large and rescale it to M bits.
+#[cfg_attr(kani, kani::requires(IN >= 1 && IN <= 8 && OUT >= 1 && OUT <= 8 && OUT <= IN * 2 && (x as u32) < (1u32 << IN)))]
+#[cfg_attr(kani, kani::ensures(|r: &u8| (OUT == 8 || (*r as u32) < (1u32 << OUT)) && (if OUT >= IN { (*r >> (OUT - IN)) == x } else { *r == x >> (IN - OUT) })))]
 #[inline(always)]
 fn change_bit_depth<const IN: u32, const OUT: u32>(x: u8) -> u8 {
     assert!(OUT <= IN * 2);
@@ -301,3 +303,7 @@ mod tests {
         black_and_white_check::<Gray8>();
     }
 }
+
+#[cfg(kani)]
+#[path = "/verif/contracts/kani/color.rs"]
+mod verif_kani;
